@@ -230,6 +230,23 @@ pub fn post(solver: &mut Solver, b: &Binding, con: &Con, tag: Option<u32>) -> Po
             assert!(matches!(mode, Mode::Post) && !neg, "harness: pred_clause can only be posted");
             s.add_clause(ps.iter().map(|p| b.pred(p)))
         }
+        Con::ViewClause(ps) => {
+            assert!(matches!(mode, Mode::Post) && !neg, "harness: view_clause can only be posted");
+            let preds: Vec<Predicate> = ps
+                .iter()
+                .map(|(v, k, val)| {
+                    let view = b.view(v);
+                    let val = *val;
+                    match k {
+                        Pk::Ge => predicate!(view >= val),
+                        Pk::Le => predicate!(view <= val),
+                        Pk::Eq => predicate!(view == val),
+                        Pk::Ne => predicate!(view != val),
+                    }
+                })
+                .collect();
+            s.add_clause(preds)
+        }
         Con::Not(_) | Con::Half(..) | Con::Reif(..) => panic!("harness: nested reification is not expressible"),
     }
 }
